@@ -289,7 +289,15 @@ def run(facts, res):
                 res.instance("A5", "%s returns %s" % (pp, fmt(t, 4)), pb.loc(st.line))
                 if not ok:
                     res.violation("A5", "%s|unrecognised-result" % pp, "%s returns %s, not a membership / verified-read result" % (pp, fmt(t, 4)), pb.loc(st.line))
-        res.floor("A5", "true-returning paths of %s" % pp, n_true, 2)
+        for bi, t in pb.calls():
+            if t.dest is not None and t.dest.local == 0 and not t.dest.proj and t.callee is not None:
+                n_true += 1
+                ct = du.call_term(t, bi, 12)
+                ok = t.callee.name in ("is_ok", "contains_key", "is_some") and contains_call(ct, "read_object", R.name("obj_reader"), "contains_key")
+                res.instance("A5", "%s returns %s" % (pp, fmt(ct, 4)), pb.loc(t.line))
+                if not ok:
+                    res.violation("A5", "%s|unrecognised-result" % pp, "%s returns %s, not a membership / verified-read result" % (pp, fmt(ct, 4)), pb.loc(t.line))
+        res.floor("A5", "true-returning paths of %s" % pp, n_true, 1)
 
 
 def _same_delta(body, block, arg, facts):
@@ -368,7 +376,39 @@ def check_ready_earned(b, ready_block, facts, res):
         entry, _ = loops[fld]
         body_blocks = loop_body(fld)
         pass_edges = {e for e, l in edges if l.edge[0] in body_blocks and pass_pred(l)}
-        reach = cfg.reaches(entry, ready_block, avoid=pass_edges)
+        avoid = set(pass_edges)
+        # boolean temporaries (matches!, `a && b` stored in a let): an edge `flag == v` is infeasible on paths that avoid
+        # the pass edges when no assignment `flag = v` is reachable on such paths
+        changed = True
+        while changed:
+            changed = False
+            for sb in body_blocks:
+                t = b.blocks[sb].term
+                if t.kind != "switch" or t.j.get("discr_ty") != "bool":
+                    continue
+                fl = t.discr.local()
+                if fl is None:
+                    continue
+                defs = du.full_defs(fl)
+                sites = {True: [], False: []}
+                okf = bool(defs)
+                for d in defs:
+                    if d.kind == "assign" and d.rv.kind == "use" and d.rv.operands()[0].is_const() and "bool" in d.rv.operands()[0].j and d.block in body_blocks:
+                        sites[d.rv.operands()[0].j["bool"]].append(d.block)
+                    else:
+                        okf = False
+                if not okf:
+                    continue
+                for k, (v, tgt) in enumerate(t.switch_edges()):
+                    e = cfg.edge_nodes[(sb, k)]
+                    if e in avoid:
+                        continue
+                    val = (v != 0) if v is not None else (0 in [x for x, _ in t.switch_edges() if x is not None])
+                    ss = sites[bool(val)]
+                    if ss and not any(cfg.reaches(entry, sblk, avoid=avoid) for sblk in ss):
+                        avoid.add(e)
+                        changed = True
+        reach = cfg.reaches(entry, ready_block, avoid=avoid)
         res.instance("A2", "%s loop: Ready unreachable from an iteration without the pass edge of `%s` (%d pass edge(s)): %s" % (
             fld, what, len(pass_edges), not reach), b.loc(b.blocks[ready_block].stmts[0].line if b.blocks[ready_block].stmts else None))
         if reach or not pass_edges:
@@ -389,10 +429,14 @@ def check_ready_earned(b, ready_block, facts, res):
     must_pass("parents", "parent is known",
               lambda l: ((is_call(l, "is_none", False) or is_call(l, "is_some", True)) and contains_call(l.term[2][0], "get")
                          and elem_of(l.term[2][0], "parents"))
+              or (is_call(l, "contains_key", True) and len(l.term[2]) >= 2 and elem_of(l.term[2][1], "parents")
+                  and any(x[0] == "field" and x[2] == "deltas" for x in walk(l.term[2][0])))
               or (l.kind == "variant" and l.variants == {"Some"} and peel(l.term)[0] == "call" and callee_name(peel(l.term)) == "get"
                   and elem_of(l.term, "parents")))
 
     def parent_state_ok(l):
+        if l.kind == "variant" and l.adt == STATUS and l.variants and l.variants <= {"Ready", "Applied"}:
+            return contains_call(l.term, b.name) and elem_of(l.term, "parents")   # match / matches! on the parent's status
         if l.kind != "call" or callee_name(l.term) not in ("eq", "ne") or len(l.term[2]) != 2:
             return False
         if l.truth != (callee_name(l.term) == "eq"):
